@@ -93,6 +93,10 @@ type Authenticator struct {
 	challenge []byte // CHAP challenge
 	chapID    uint8  // CHAP identifier
 
+	// Outcome of the outstanding CHAP challenge: a challenge is answered at most once
+	chapAnswered bool // a verdict (Success/Failure) was already sent for chapID
+	chapAccepted bool // that verdict was Success
+
 	// Packet sender
 	sendPacket func(protocol uint16, data []byte)
 
@@ -332,8 +336,11 @@ func (a *Authenticator) sendCHAPChallenge() error {
 	// Generate random challenge
 	a.challenge = make([]byte, a.config.ChallengeLength)
 	if _, err := rand.Read(a.challenge); err != nil {
+		a.challenge = nil
 		return fmt.Errorf("failed to generate challenge: %w", err)
 	}
+	a.chapAnswered = false
+	a.chapAccepted = false
 
 	nameBytes := []byte(a.config.CHAPIdentifier)
 
@@ -362,11 +369,24 @@ func (a *Authenticator) handleCHAPResponse(identifier uint8, data []byte) error 
 	a.mu.Lock()
 	defer a.mu.Unlock()
 
-	if identifier != a.chapID {
+	// A response is only meaningful for a challenge that was actually sent
+	// (chapID starts at 0, so identifier 0 must not match before the first challenge).
+	if a.challenge == nil || identifier != a.chapID {
 		a.logger.Warn("CHAP response with unexpected identifier",
 			zap.Uint8("expected", a.chapID),
 			zap.Uint8("received", identifier),
 		)
+		return nil
+	}
+
+	// RFC 1994 4.2: a further Response to a challenge that was already answered
+	// gets the same reply again; it is not authenticated a second time.
+	if a.chapAnswered {
+		if a.chapAccepted {
+			a.sendCHAPSuccess(identifier, "Login OK")
+		} else {
+			a.sendCHAPFailure(identifier, "Authentication failed")
+		}
 		return nil
 	}
 
@@ -392,12 +412,14 @@ func (a *Authenticator) handleCHAPResponse(identifier uint8, data []byte) error 
 
 	// Check rate limiting
 	if a.isRateLimited() {
+		a.chapAnswered, a.chapAccepted = true, false
 		a.sendCHAPFailure(identifier, "Too many failed attempts")
 		return nil
 	}
 
 	// For CHAP, we need to verify the response or forward to RADIUS
 	result := a.authenticateCHAP(name, responseValue)
+	a.chapAnswered, a.chapAccepted = true, result.Success
 
 	if result.Success {
 		a.state = AuthStateSuccess
